@@ -622,14 +622,14 @@ func (x *Exec) calleeNames(c *Contract, fn *types.Func) (recv string, params []s
 	}
 	for i := 0; i < sig.Params().Len(); i++ {
 		n := sig.Params().At(i).Name()
-		if n == "" || n == "_" {
+		if n == "" || n == "_" || strings.HasPrefix(n, "#") {
 			n = fmt.Sprintf("arg%d", i)
 		}
 		params = append(params, n)
 	}
 	for i := 0; i < sig.Results().Len(); i++ {
 		n := sig.Results().At(i).Name()
-		if n == "" || n == "_" {
+		if n == "" || n == "_" || strings.HasPrefix(n, "#") {
 			if sig.Results().Len() == 1 {
 				n = "result"
 			} else {
@@ -760,6 +760,10 @@ func (x *Exec) applyContract(e *ast.CallExpr, st *State, fn *types.Func, c *Cont
 	post := &cctx{x: x, st: st, old: pre, env: env, oldEnv: oldEnv, callee: c, resNames: resN}
 	for _, en := range c.Ensures {
 		x.assumeEnsures(post.with(en), en, env, resN)
+	}
+	for _, g := range c.Grants {
+		x.assumes["granted by "+trimPkg(c.Short)+": "+g.Src] = true
+		x.assumeEnsures(post.with(g), g, env, resN)
 	}
 	if valueRecv {
 		if sel, ok := unparen(e.Fun).(*ast.SelectorExpr); ok {
